@@ -11,3 +11,11 @@ __attribute__((constructor)) static void verif_seam_init(void) {
     if (p && strlen(p) < sizeof verif_cfgpath) strcpy(verif_cfgpath, p);
 }
 #endif
+
+/* Compiled-in configuration seam ("compiled_in" variants: ./configure --disable-config-file --with-message-format=... --with-filter-chain=...
+ * --with-default-output=...): the SNOOPY_CONF_* string macros expand to these variables, so one build serves every compiled-in setting. */
+__attribute__((visibility("default"))) char verif_def_format[65536] = "%{cmdline}";
+__attribute__((visibility("default"))) char verif_def_chain[8192] = "";
+__attribute__((visibility("default"))) char verif_def_output[256] = "devlog";
+__attribute__((visibility("default"))) char verif_def_output_arg[8192] = "";
+__attribute__((visibility("default"))) char verif_def_ident[8192] = "snoopy";
